@@ -56,7 +56,9 @@ PROPS = {
     },
     "C12": {
         "modules": ["Resolved.Props.C12"],
-        "streams": [{"name": "zones-merge", "quick": 20000, "thorough": 400000}],
+        "streams": [{"name": "zones-merge", "quick": 20000, "thorough": 400000},
+                    {"name": "hosts", "quick": 30000, "thorough": 600000},
+                    {"name": "config-load", "quick": 2000, "thorough": 60000}],
         "trivial_tags": [r":bad-op", r":nozone"],
         "assumptions": ["directory enumeration and path ordering by the OS/std are observed through the binary, not modelled"],
     },
@@ -82,7 +84,10 @@ PROPS = {
     },
     "C06": {
         "modules": ["Resolved.Props.C06"],
-        "streams": [{"name": "upstream", "quick": 24000, "thorough": 500000}],
+        "streams": [{"name": "upstream", "quick": 24000, "thorough": 500000},
+                    # the delegation depth handed to the filter by the resolver loop, and what reaches the cache
+                    {"name": "resolve-universe", "quick": 1200, "thorough": 30000},
+                    {"name": "resolve-faults", "quick": 1200, "thorough": 30000}],
         "trivial_tags": [r":bad-op"],
         "assumptions": ["the three cache.insert_all call sites insert exactly the validated record lists (read from the code; covered end-to-end by the resolver streams of C07)"],
     },
